@@ -420,6 +420,72 @@ static void runScript(File& f, char* script)
   }
 }
 
+// number of descriptors the process holds right now (the listing itself costs one: constant)
+static int countFds()
+{
+  DIR* d = opendir("/proc/self/fd");
+  if(!d) die("opendir /proc/self/fd");
+  int n = 0;
+  while(realReaddir(d)) ++n;
+  closedir(d);
+  return n;
+}
+
+// fsobj <script>: life cycle of three File objects (o<i>:<path>:<flags> open, c<i> close, q<i> isOpen, x<i> destructor +
+// fresh object, k:<src>:<dst>:<n> File::copy with the n-th lseek failing); every item answers its result and the number
+// of descriptors the process holds beyond the count at the start of the line; at the end every object is destroyed
+static bool objScript(const char* script)
+{
+  File* obj[3] = {new File, new File, new File};
+  int base = countFds();
+  bool good = true;
+  char* copy = strdup(script);
+  char* save = 0;
+  for(char* it = strtok_r(copy, ",", &save); it && good; it = strtok_r(0, ",", &save))
+  {
+    char c = it[0];
+    if(c == 'k')
+    {
+      char* s2 = 0;
+      char* t0 = strtok_r(it, ":", &s2); (void)t0;
+      char* a = strtok_r(0, ":", &s2); char* b = strtok_r(0, ":", &s2); char* n = strtok_r(0, ":", &s2);
+      if(!a || !b || !n || (n[0] != '0' && n[0] != '1') || n[1]) { good = false; break; }
+      bool ok = true;
+      String src = xl(a, ok), dst = xl(b, ok);
+      if(!ok) { good = false; break; }
+      long before = g_total_ls;
+      g_ls_countdown = n[0] - '0';
+      bool r = File::copy(src, dst, false);
+      g_ls_countdown = -1;
+      printf(" k=%d/%d fired=%d", r ? 1 : 0, countFds() - base, g_total_ls != before ? 1 : 0);
+      continue;
+    }
+    int i = it[1] - '0';
+    if(i < 0 || i > 2) { good = false; break; }
+    if(c == 'o')
+    {
+      char* s2 = 0;
+      char* t0 = strtok_r(it, ":", &s2); (void)t0;
+      char* a = strtok_r(0, ":", &s2); char* fl = strtok_r(0, ":", &s2);
+      if(!a || !fl || (strcmp(fl, "1") && strcmp(fl, "5"))) { good = false; break; }
+      bool ok = true;
+      String path = xl(a, ok);
+      if(!ok) { good = false; break; }
+      bool r = obj[i]->open(path, (uint)atoi(fl));
+      printf(" o=%d/%d", r ? 1 : 0, countFds() - base);
+    }
+    else if(c == 'c' && !it[2]) { obj[i]->close(); printf(" c=1/%d", countFds() - base); }
+    else if(c == 'q' && !it[2]) { bool r = obj[i]->isOpen(); printf(" q=%d/%d", r ? 1 : 0, countFds() - base); }
+    else if(c == 'x' && !it[2]) { delete obj[i]; obj[i] = new File; printf(" x=1/%d", countFds() - base); }
+    else good = false;
+  }
+  free(copy);
+  for(int i = 0; i < 3; ++i) delete obj[i];
+  printf(" end=%d", countFds() - base);
+  if(!good) printf(" bad");
+  return good;
+}
+
 static bool g_needReset = true;
 // returns false when the line is no fs op (or a rejected one)
 static bool fsOp(HxLine& l)
@@ -434,6 +500,13 @@ static bool fsOp(HxLine& l)
     const char* t = a; size_t tl = a.length();
     if(tl >= BASELEN && !strncmp(t, BASE, BASELEN) && (t[BASELEN] == '/' || !t[BASELEN])) { t += BASELEN; tl -= BASELEN; }
     hxPutHex(t, tl);
+    putSnapshot();
+    return true;
+  }
+  if(hxIs(l, "fsobj", 1))
+  {
+    printf("obj");
+    objScript(l.tok[1]);
     putSnapshot();
     return true;
   }
